@@ -13,6 +13,6 @@ CONSTANTS
   Active = {"r1", "r2", "w"}
   Bin = FALSE
   Acts = {"write", "read", "readblock", "seek", "tell", "refresh", "close", "reopen", "delete", "tick"}
-  Defects = {"overwrite", "refresh_skip"}
+  Defects = {"overwrite", "refresh_skip", "frac_ts"}
 CHECK_DEADLOCK TRUE
 INVARIANT TypeOK
